@@ -20,12 +20,7 @@ pub struct Case {
 }
 
 fn limit(s: &mut Src) -> LimitVal {
-    match s.weighted(&[3, 2, 2, 1]) {
-        0 => LimitVal::I(s.range(-1000, 70000)),
-        1 => LimitVal::D(F64(gen::f64_finite(s))),
-        2 => LimitVal::S(e57ref::fx::F32(gen::f64_finite(s) as f32)),
-        _ => LimitVal::SI(s.range(-1000, 70000)),
-    }
+    gen::limit_val(s)
 }
 
 /// Scene for the independent encoder: like a writer program, plus the
